@@ -121,3 +121,63 @@ def oracle(case, res):
             if val(qi) != want:
                 return f"lane {lane}: S({q}) must equal the unique spline's value {want}, got {val(qi)}"
     return None
+
+
+def extra(rng, tier):
+    """long axes at f64 / f32 (seed C03-r8m1: a forward sweep evaluated as a scaled running sum whose scale — the product of the
+    elimination multipliers, about 0.27^i — underflows after ~540 rows at f64 and ~70 at f32: every slope becomes NaN).  Exact
+    arithmetic cannot show this and the exact families stop at 40 points, so: 600 / 1500 points at f64, 120 / 300 at f32, every
+    boundary selection, queried on knots, between knots and next to both ends; the interpolant must be finite, pass through the
+    data and meet a Natural / Clamped end condition (read off four equally spaced samples in the end interval)."""
+    import math
+    import vlib
+    from gen import i1_line, e_array
+    lines, metas = [], []
+    for _ in range(gen.N(tier, 6, 40)):
+        S = rng.choice(["F", "G"])
+        rd = (lambda v: v) if S == "F" else vlib.f32_round
+        n = rng.choice([600, 1500] if S == "F" else [120, 300])
+        kind = rng.choice(["unit", "uneven"])
+        xs, cur = [], rd(rng.uniform(-3, 3))
+        for i in range(n):
+            xs.append(cur)
+            cur = rd(cur + (1.0 if kind == "unit" else rng.choice([0.25, 0.5, 1.0, 2.0])))
+        ys = [rd(math.sin(0.37 * i) + 0.01 * rng.uniform(-1, 1)) for i in range(n)]
+        bc = rng.choice(["nat", "cla", "nak", "per", ("ind", [1], [(rng.choice(["nat", "cla", "nak"]), rng.choice(["nat", "cla", ("fd", rd(0.5))]))])])
+        if bc == "per":
+            ys[-1] = ys[0]
+        ks = sorted({0, 1, n - 2, n - 1} | {rng.randrange(n) for _ in range(8)})
+        h0, h1 = xs[1] - xs[0], xs[-1] - xs[-2]
+        qs = [xs[k] for k in ks] + [rd((xs[k] + xs[k + 1]) / 2) for k in ks if k + 1 < n]
+        ends = [rd(xs[0] + h0 * j / 4) for j in range(4)] + [rd(xs[-1] - h1 * j / 4) for j in range(4)]
+        lines.append(i1_line(S, xs, [n], ys, ("spl", False, bc), e_array(S, [len(qs) + 8], qs + ends)))
+        metas.append((S, bc, [ys[k] for k in ks], len(qs), h0, h1))
+    outs = vlib.run_impl_only(ID, lines, tag="long")
+    fails = []
+    for line, out, (S, bc, knots, nq, h0, h1) in zip(lines, outs, metas):
+        r = vlib.Result(out)
+        tol = 1e-9 if S == "F" else 2e-3
+        if r.kind != "ok":
+            fails.append({"line": line[:400], "impl": out[:200], "required": "in-range queries on a long axis must be answered"})
+            continue
+        v = r.floats()
+        bad = None
+        if any(not math.isfinite(x) for x in v):
+            bad = f"every value on a long axis must be finite, got {[x for x in v if not math.isfinite(x)][:3]}"
+        else:
+            for g, y in zip(v, knots):
+                if abs(g - y) > tol:
+                    bad = f"the spline must pass through the data: {y}, got {g}"
+                    break
+            side = lambda b, i: b if isinstance(b, str) else (b[2][0][i] if isinstance(b[2][0][i], str) else b[2][0][i][0])
+            for i, (smp, h) in enumerate(((v[nq:nq + 4], h0 / 4), (v[nq + 4:nq + 8], -h1 / 4))):
+                c = side(bc, i)
+                d1 = (-11 * smp[0] + 18 * smp[1] - 9 * smp[2] + 2 * smp[3]) / (6 * h)        # exact for a cubic
+                d2 = (2 * smp[0] - 5 * smp[1] + 4 * smp[2] - smp[3]) / (h * h)
+                if not bad and c == "cla" and abs(d1) > (1e-6 if S == "F" else 0.05):
+                    bad = f"Clamped end {i}: S' must be 0, read off the samples: {d1}"
+                if not bad and c == "nat" and abs(d2) > (1e-5 if S == "F" else 0.5):
+                    bad = f"Natural end {i}: S'' must be 0, read off the samples: {d2}"
+        if bad:
+            fails.append({"line": line[:400], "impl": out[:200], "required": bad})
+    return {"evaluations": len(lines), "failures": fails[:20], "hist": {"long_axis_float_splines": len(lines)}}
